@@ -96,31 +96,62 @@ else:
     algo = DQN(buffer_size=64, learning_starts=8, num_envs=1, num_steps=4, batch_size=4)
     policy = MLPQPolicy(env, width_size=8, depth=1, key=jr.key(3))
     total = 16
-out = algo.learn(env, policy, total, key=jr.key(11))
+callback = None
+if len(sys.argv) > 2 and sys.argv[2] == "observed":
+    # the FIRST training of this interpreter runs under a list of observers
+    from lerax.callback import AbstractLoggingBackend, LoggingCallback, ProgressBarCallback
+    class Null(AbstractLoggingBackend):
+        def open(self, name): pass
+        def log_hparams(self, hparams): pass
+        def log_scalars(self, scalars, step): pass
+        def log_video(self, tag, frames, step, fps): pass
+        def close(self): pass
+    callback = [LoggingCallback(Null(), name="child"), ProgressBarCallback()]
+out = algo.learn(env, policy, total, key=jr.key(11), callback=callback)
+jax.effects_barrier()
 h = hashlib.sha1()
+flat = []
 for leaf in jax.tree.leaves(eqx.filter(out, eqx.is_array)):
     h.update(np.asarray(leaf).tobytes())
-print("DIGEST", h.hexdigest())
+    flat += np.asarray(leaf, np.float64).ravel().tolist()
+np.save(sys.argv[3], np.asarray(flat))       # not through stdout: a progress bar may be writing there
+print("\nDIGEST", h.hexdigest())
 """
 
 
 def check_across_processes(ctx):
     """'Training is a function of (environment, initial policy, hyper-parameters, key)': the same run in
     separate interpreter processes (different string-hash salts, as for any two runs of a script) yields
-    bit-identical parameters."""
+    bit-identical parameters; and a fresh interpreter whose FIRST training runs under a list of observers
+    yields the parameters of the unobserved fresh interpreters (observers are passive whatever the process
+    has or has not done before)."""
     import subprocess
     import sys
-    for which in ctx.budget(["PPO"], ["PPO", "DQN"]):
-        digests = {}
-        for salt in ("1", "2", "random"):
-            env = dict(os.environ, PYTHONHASHSEED=salt)
-            p = subprocess.run([sys.executable, "-c", _CHILD, which], env=env, capture_output=True, text=True, timeout=900)
-            lines = [ln for ln in p.stdout.splitlines() if ln.startswith("DIGEST ")]
-            if p.returncode != 0 or not lines:
-                ctx.note(f"cross-process run ({which}, PYTHONHASHSEED={salt}) did not complete: rc={p.returncode}")
+
+    def child(which, salt, mode="plain"):
+        import re
+        import tempfile
+        env = dict(os.environ, PYTHONHASHSEED=salt)
+        os.makedirs(os.path.join(VERIF, ".work"), exist_ok=True)
+        with tempfile.TemporaryDirectory(dir=os.path.join(VERIF, ".work")) as tmp:
+            out = os.path.join(tmp, "params.npy")
+            p = subprocess.run([sys.executable, "-c", _CHILD, which, mode, out], env=env, capture_output=True,
+                               text=True, timeout=900)
+            dg = re.findall(r"DIGEST ([0-9a-f]+)", p.stdout)
+            if p.returncode != 0 or not dg or not os.path.exists(out):
+                ctx.note(f"cross-process run ({which}, PYTHONHASHSEED={salt}, {mode}) did not complete: rc={p.returncode} "
+                         + p.stderr[-200:].replace("\n", " "))
+                return None
+            return dg[-1], np.load(out)
+
+    for which in ["PPO", "DQN"]:
+        digests, params = {}, None
+        for salt in ctx.budget(("1", "2"), ("1", "2", "random")):
+            r = child(which, salt)
+            if r is None:
                 digests = None
                 break
-            digests[salt] = lines[-1].split()[1]
+            digests[salt], params = r
         if digests is None:
             continue
         case = {"kind": "across-processes", "algo": which, "digests_by_PYTHONHASHSEED": digests}
@@ -128,6 +159,18 @@ def check_across_processes(ctx):
         ctx.count("across-processes:" + which)
         if len(set(digests.values())) != 1:
             ctx.phi_fail("repeat_same_inputs_bit_identical", case, key="c11:across-processes")
+            continue
+        r = child(which, "3", "observed")
+        if r is None:
+            continue
+        ok = r[1].shape == params.shape and np.allclose(r[1], params, rtol=1e-5, atol=1e-7, equal_nan=True)
+        case = {"kind": "fresh-process-observed-vs-unobserved", "algo": which, "bit_identical": r[0] == digests["1"],
+                "max_abs_difference": float(np.nanmax(np.abs(np.where(np.isfinite(params), r[1] - params, 0.0))))
+                if r[1].shape == params.shape else None}
+        ctx.case(case, True)
+        ctx.count("across-processes-observed:" + which)
+        if not ok:
+            ctx.phi_fail("observer_callback_list_same_policy", case, key="c11:fresh-process-observed")
 
 
 def check_callback_list_members(ctx):
